@@ -237,6 +237,7 @@ func runC01(w *eng.W) {
 		w.Sample("pathological", g)
 		c01Gen.Do(w, g)
 	})
+	lookaheadForms(w, "lookahead-forms", do)
 	tokenSeqs(w, "full-seq", SigmaFull, pick(3, 4), do)
 	listForms(w, "list-forms", do)
 	postfixChains(w, "postfix-chains", pick(2, 3), do)
